@@ -57,7 +57,8 @@ pub fn run_check(context: &CheckContext) -> CheckOutcome {
     if context.property == "C14" { return run_c14(context, outcome); }
     if context.property == "C12" { return run_c12(context, outcome); }
     if matches!(context.property.as_str(), "C18") { return run_conc_check(context, outcome); }
-    let campaigns = seq_campaigns_with_scale(&context.property);
+    // debugging aid: VERIF_SKIP_SEQ=1 runs only the concurrent part of a check
+    let campaigns = if std::env::var("VERIF_SKIP_SEQ").is_ok() { Vec::new() } else { seq_campaigns_with_scale(&context.property) };
     if !campaigns.is_empty() { outcome.assumptions.extend(seq_assumptions()); }
     for campaign in campaigns {
         let (report, violation) = run_seq_campaign(context, &campaign);
